@@ -44,12 +44,14 @@ let compOpp = function
 | Lt -> Gt
 | Gt -> Lt
 
-(** val add : nat -> nat -> nat **)
-
-let rec add n0 m =
-  match n0 with
-  | O -> m
-  | S p0 -> S (add p0 m)
+module Coq__1 = struct
+ (** val add : nat -> nat -> nat **)
+ let rec add n0 m =
+   match n0 with
+   | O -> m
+   | S p0 -> S (add p0 m)
+end
+include Coq__1
 
 module Nat =
  struct
@@ -109,6 +111,13 @@ let rec map f = function
 | [] -> []
 | a :: t -> (f a) :: (map f t)
 
+(** val fold_left : ('a1 -> 'a2 -> 'a1) -> 'a2 list -> 'a1 -> 'a1 **)
+
+let rec fold_left f l a0 =
+  match l with
+  | [] -> a0
+  | b :: t -> fold_left f t (f a0 b)
+
 (** val fold_right : ('a2 -> 'a1 -> 'a1) -> 'a1 -> 'a2 list -> 'a1 **)
 
 let rec fold_right f a0 = function
@@ -132,6 +141,12 @@ let rec forallb f = function
 let rec filter f = function
 | [] -> []
 | x :: l0 -> if f x then x :: (filter f l0) else filter f l0
+
+(** val find : ('a1 -> bool) -> 'a1 list -> 'a1 option **)
+
+let rec find f = function
+| [] -> None
+| x :: tl -> if f x then Some x else find f tl
 
 (** val firstn : nat -> 'a1 list -> 'a1 list **)
 
@@ -345,6 +360,19 @@ module Coq_Pos =
     | XH -> (match q with
              | XH -> true
              | _ -> false)
+
+  (** val iter_op : ('a1 -> 'a1 -> 'a1) -> positive -> 'a1 -> 'a1 **)
+
+  let rec iter_op op p0 a =
+    match p0 with
+    | XI p1 -> op a (iter_op op p1 (op a a))
+    | XO p1 -> iter_op op p1 (op a a)
+    | XH -> a
+
+  (** val to_nat : positive -> nat **)
+
+  let to_nat x =
+    iter_op Coq__1.add x (S O)
 
   (** val of_succ_nat : nat -> positive **)
 
@@ -632,11 +660,31 @@ module Z =
                   | Zneg q -> Coq_Pos.eqb p0 q
                   | _ -> false)
 
+  (** val max : z -> z -> z **)
+
+  let max n0 m =
+    match compare n0 m with
+    | Lt -> m
+    | _ -> n0
+
+  (** val min : z -> z -> z **)
+
+  let min n0 m =
+    match compare n0 m with
+    | Gt -> m
+    | _ -> n0
+
   (** val abs : z -> z **)
 
   let abs = function
   | Zneg p0 -> Zpos p0
   | x -> x
+
+  (** val to_nat : z -> nat **)
+
+  let to_nat = function
+  | Zpos p0 -> Coq_Pos.to_nat p0
+  | _ -> O
 
   (** val to_N : z -> n **)
 
@@ -2159,3 +2207,1172 @@ let kv_gas_config =
     g_read_byte = (Npos (XI XH)); g_write_flat = (Npos (XO (XO (XO (XO (XI
     (XO (XI (XI (XI (XI XH))))))))))); g_write_byte = (Npos (XO (XI (XI (XI
     XH))))); g_iter_flat = (Npos (XO (XI (XI (XI XH))))) }
+
+(** val be_bytes : nat -> z -> bytes **)
+
+let rec be_bytes n0 z0 =
+  match n0 with
+  | O -> []
+  | S n' ->
+    app
+      (be_bytes n'
+        (Z.div z0 (Zpos (XO (XO (XO (XO (XO (XO (XO (XO XH)))))))))))
+      ((Z.to_N
+         (Z.modulo z0 (Zpos (XO (XO (XO (XO (XO (XO (XO (XO XH))))))))))) :: [])
+
+(** val le_bytes : nat -> z -> bytes **)
+
+let rec le_bytes n0 z0 =
+  match n0 with
+  | O -> []
+  | S n' ->
+    (Z.to_N (Z.modulo z0 (Zpos (XO (XO (XO (XO (XO (XO (XO (XO XH))))))))))) :: 
+      (le_bytes n'
+        (Z.div z0 (Zpos (XO (XO (XO (XO (XO (XO (XO (XO XH)))))))))))
+
+(** val inv_bytes : bytes -> bytes **)
+
+let inv_bytes b =
+  map (fun x -> N.sub (Npos (XI (XI (XI (XI (XI (XI (XI XH)))))))) x) b
+
+(** val power_of : z -> z **)
+
+let power_of tokens =
+  Z.quot tokens (Zpos (XO (XO (XO (XO (XO (XO (XI (XO (XO (XI (XO (XO (XO (XO
+    (XI (XO (XI (XI (XI XH))))))))))))))))))))
+
+(** val rank_key : z -> bytes -> bytes **)
+
+let rank_key tokens addr =
+  app (be_bytes (S (S (S (S (S (S (S (S O)))))))) (power_of tokens))
+    (inv_bytes addr)
+
+(** val missed_key : bytes -> z -> bytes **)
+
+let missed_key addr i =
+  app addr (le_bytes (S (S (S (S (S (S (S (S O)))))))) i)
+
+(** val time_key : z -> bytes **)
+
+let time_key t =
+  be_bytes (S (S (S (S (S (S (S (S O)))))))) t
+
+type validator = { v_pk : bytes; v_jailed : bool; v_status : n; v_tokens : 
+                   z; v_unstime : z }
+
+type signinfo = { si_start : z; si_offset : z; si_jailed_until : z;
+                  si_tomb : bool; si_missed : z }
+
+type pparams = { p_unstaking_time : z; p_max_validators : z; p_min_stake : 
+                 z; p_max_evidence_age : z; p_window : z; p_min_signed : 
+                 z; p_downtime_jail : z; p_slash_ds : z; p_slash_dt : 
+                 z }
+
+type aparams = { a_max_memo : z; a_sig_limit : z; a_fee_default : z;
+                 a_fee_multis : (bytes * z) list }
+
+type modaddrs = { m_fee : bytes; m_pool : bytes; m_pos : bytes; m_dao : bytes }
+
+type state = { accts : z amap; supply : z; vals : validator amap;
+               powidx : bytes amap; prevpow : z amap; prevtotal : z;
+               unstq : bytes list amap; sinfo : signinfo amap;
+               missed : bool amap; awards : z amap; burns : z amap;
+               proposer : bytes option; pkrel : bytes amap; pp : pparams;
+               ap : aparams; ma : modaddrs; acl : (bytes * bytes) list;
+               dao_owner : bytes; params_raw : bytes amap; height : z;
+               btime : z; haspk : unit amap }
+
+(** val set_bank : state -> z amap -> z -> state **)
+
+let set_bank s a sup =
+  { accts = a; supply = sup; vals = s.vals; powidx = s.powidx; prevpow =
+    s.prevpow; prevtotal = s.prevtotal; unstq = s.unstq; sinfo = s.sinfo;
+    missed = s.missed; awards = s.awards; burns = s.burns; proposer =
+    s.proposer; pkrel = s.pkrel; pp = s.pp; ap = s.ap; ma = s.ma; acl =
+    s.acl; dao_owner = s.dao_owner; params_raw = s.params_raw; height =
+    s.height; btime = s.btime; haspk = s.haspk }
+
+(** val set_vals : state -> validator amap -> state **)
+
+let set_vals s v =
+  { accts = s.accts; supply = s.supply; vals = v; powidx = s.powidx;
+    prevpow = s.prevpow; prevtotal = s.prevtotal; unstq = s.unstq; sinfo =
+    s.sinfo; missed = s.missed; awards = s.awards; burns = s.burns;
+    proposer = s.proposer; pkrel = s.pkrel; pp = s.pp; ap = s.ap; ma = s.ma;
+    acl = s.acl; dao_owner = s.dao_owner; params_raw = s.params_raw; height =
+    s.height; btime = s.btime; haspk = s.haspk }
+
+(** val set_powidx : state -> bytes amap -> state **)
+
+let set_powidx s p0 =
+  { accts = s.accts; supply = s.supply; vals = s.vals; powidx = p0; prevpow =
+    s.prevpow; prevtotal = s.prevtotal; unstq = s.unstq; sinfo = s.sinfo;
+    missed = s.missed; awards = s.awards; burns = s.burns; proposer =
+    s.proposer; pkrel = s.pkrel; pp = s.pp; ap = s.ap; ma = s.ma; acl =
+    s.acl; dao_owner = s.dao_owner; params_raw = s.params_raw; height =
+    s.height; btime = s.btime; haspk = s.haspk }
+
+(** val set_prev : state -> z amap -> z -> state **)
+
+let set_prev s p0 t =
+  { accts = s.accts; supply = s.supply; vals = s.vals; powidx = s.powidx;
+    prevpow = p0; prevtotal = t; unstq = s.unstq; sinfo = s.sinfo; missed =
+    s.missed; awards = s.awards; burns = s.burns; proposer = s.proposer;
+    pkrel = s.pkrel; pp = s.pp; ap = s.ap; ma = s.ma; acl = s.acl;
+    dao_owner = s.dao_owner; params_raw = s.params_raw; height = s.height;
+    btime = s.btime; haspk = s.haspk }
+
+(** val set_unstq : state -> bytes list amap -> state **)
+
+let set_unstq s q =
+  { accts = s.accts; supply = s.supply; vals = s.vals; powidx = s.powidx;
+    prevpow = s.prevpow; prevtotal = s.prevtotal; unstq = q; sinfo = s.sinfo;
+    missed = s.missed; awards = s.awards; burns = s.burns; proposer =
+    s.proposer; pkrel = s.pkrel; pp = s.pp; ap = s.ap; ma = s.ma; acl =
+    s.acl; dao_owner = s.dao_owner; params_raw = s.params_raw; height =
+    s.height; btime = s.btime; haspk = s.haspk }
+
+(** val set_sign : state -> signinfo amap -> bool amap -> state **)
+
+let set_sign s si mi =
+  { accts = s.accts; supply = s.supply; vals = s.vals; powidx = s.powidx;
+    prevpow = s.prevpow; prevtotal = s.prevtotal; unstq = s.unstq; sinfo =
+    si; missed = mi; awards = s.awards; burns = s.burns; proposer =
+    s.proposer; pkrel = s.pkrel; pp = s.pp; ap = s.ap; ma = s.ma; acl =
+    s.acl; dao_owner = s.dao_owner; params_raw = s.params_raw; height =
+    s.height; btime = s.btime; haspk = s.haspk }
+
+(** val set_queues : state -> z amap -> z amap -> state **)
+
+let set_queues s aw bu =
+  { accts = s.accts; supply = s.supply; vals = s.vals; powidx = s.powidx;
+    prevpow = s.prevpow; prevtotal = s.prevtotal; unstq = s.unstq; sinfo =
+    s.sinfo; missed = s.missed; awards = aw; burns = bu; proposer =
+    s.proposer; pkrel = s.pkrel; pp = s.pp; ap = s.ap; ma = s.ma; acl =
+    s.acl; dao_owner = s.dao_owner; params_raw = s.params_raw; height =
+    s.height; btime = s.btime; haspk = s.haspk }
+
+(** val set_misc : state -> bytes option -> bytes amap -> state **)
+
+let set_misc s pr pk =
+  { accts = s.accts; supply = s.supply; vals = s.vals; powidx = s.powidx;
+    prevpow = s.prevpow; prevtotal = s.prevtotal; unstq = s.unstq; sinfo =
+    s.sinfo; missed = s.missed; awards = s.awards; burns = s.burns;
+    proposer = pr; pkrel = pk; pp = s.pp; ap = s.ap; ma = s.ma; acl = s.acl;
+    dao_owner = s.dao_owner; params_raw = s.params_raw; height = s.height;
+    btime = s.btime; haspk = s.haspk }
+
+(** val set_params :
+    state -> pparams -> aparams -> (bytes * bytes) list -> bytes -> bytes
+    amap -> state **)
+
+let set_params s p0 a ac d raw =
+  { accts = s.accts; supply = s.supply; vals = s.vals; powidx = s.powidx;
+    prevpow = s.prevpow; prevtotal = s.prevtotal; unstq = s.unstq; sinfo =
+    s.sinfo; missed = s.missed; awards = s.awards; burns = s.burns;
+    proposer = s.proposer; pkrel = s.pkrel; pp = p0; ap = a; ma = s.ma; acl =
+    ac; dao_owner = d; params_raw = raw; height = s.height; btime = s.btime;
+    haspk = s.haspk }
+
+(** val set_block : state -> z -> z -> state **)
+
+let set_block s h t =
+  { accts = s.accts; supply = s.supply; vals = s.vals; powidx = s.powidx;
+    prevpow = s.prevpow; prevtotal = s.prevtotal; unstq = s.unstq; sinfo =
+    s.sinfo; missed = s.missed; awards = s.awards; burns = s.burns;
+    proposer = s.proposer; pkrel = s.pkrel; pp = s.pp; ap = s.ap; ma = s.ma;
+    acl = s.acl; dao_owner = s.dao_owner; params_raw = s.params_raw; height =
+    h; btime = t; haspk = s.haspk }
+
+(** val bal : state -> bytes -> z **)
+
+let bal s a =
+  match aget s.accts a with
+  | Some b -> b
+  | None -> Z0
+
+(** val bank_send : state -> bytes -> bytes -> z -> state option **)
+
+let bank_send s from to0 amt =
+  if (||) (Z.ltb amt Z0) (Z.ltb (bal s from) amt)
+  then None
+  else let a1 = aset s.accts from (Z.sub (bal s from) amt) in
+       let b_to = match aget a1 to0 with
+                  | Some b -> b
+                  | None -> Z0 in
+       Some (set_bank s (aset a1 to0 (Z.add b_to amt)) s.supply)
+
+(** val bank_mint : state -> bytes -> z -> state option **)
+
+let bank_mint s modl amt =
+  if Z.ltb amt Z0
+  then None
+  else Some
+         (set_bank s (aset s.accts modl (Z.add (bal s modl) amt))
+           (Z.add s.supply amt))
+
+(** val bank_burn : state -> bytes -> z -> state option **)
+
+let bank_burn s modl amt =
+  if (||) (Z.ltb amt Z0) (Z.ltb (bal s modl) amt)
+  then None
+  else Some
+         (set_bank s (aset s.accts modl (Z.sub (bal s modl) amt))
+           (Z.sub s.supply amt))
+
+(** val get_val : state -> bytes -> validator option **)
+
+let get_val s a =
+  aget s.vals a
+
+(** val put_val : state -> bytes -> validator -> state **)
+
+let put_val s a v =
+  set_vals s (aset s.vals a v)
+
+(** val with_tokens : validator -> z -> validator **)
+
+let with_tokens v t =
+  { v_pk = v.v_pk; v_jailed = v.v_jailed; v_status = v.v_status; v_tokens =
+    t; v_unstime = v.v_unstime }
+
+(** val with_status : validator -> n -> validator **)
+
+let with_status v st =
+  { v_pk = v.v_pk; v_jailed = v.v_jailed; v_status = st; v_tokens =
+    v.v_tokens; v_unstime = v.v_unstime }
+
+(** val with_jailed : validator -> bool -> validator **)
+
+let with_jailed v j =
+  { v_pk = v.v_pk; v_jailed = j; v_status = v.v_status; v_tokens =
+    v.v_tokens; v_unstime = v.v_unstime }
+
+(** val with_unstime : validator -> z -> validator **)
+
+let with_unstime v t =
+  { v_pk = v.v_pk; v_jailed = v.v_jailed; v_status = v.v_status; v_tokens =
+    v.v_tokens; v_unstime = t }
+
+(** val set_staked : state -> bytes -> validator -> state **)
+
+let set_staked s a v =
+  if (||) v.v_jailed (negb (N.eqb v.v_status (Npos (XO XH))))
+  then s
+  else set_powidx s (aset s.powidx (rank_key v.v_tokens a) a)
+
+(** val del_staked : state -> bytes -> validator -> state **)
+
+let del_staked s a v =
+  set_powidx s (adel s.powidx (rank_key v.v_tokens a))
+
+(** val burn_staked : state -> z -> state option **)
+
+let burn_staked s amt =
+  if Z.leb amt Z0 then None else bank_burn s s.ma.m_pool amt
+
+(** val del_unstaking : state -> bytes -> validator -> state **)
+
+let del_unstaking s a v =
+  let q =
+    match aget s.unstq (time_key v.v_unstime) with
+    | Some l -> l
+    | None -> []
+  in
+  let q' = filter (fun x -> negb (beqb x a)) q in
+  set_unstq s
+    (match q' with
+     | [] -> adel s.unstq (time_key v.v_unstime)
+     | _ :: _ -> aset s.unstq (time_key v.v_unstime) q')
+
+(** val force_unstake : state -> bytes -> validator -> state option **)
+
+let force_unstake s a v =
+  let s0 = del_staked s a v in
+  let s1 = if N.eqb v.v_status (Npos XH) then del_unstaking s0 a v else s0 in
+  (match if Z.ltb Z0 v.v_tokens then burn_staked s1 v.v_tokens else Some s1 with
+   | Some s2 -> Some (put_val s2 a (with_status (with_tokens v Z0) N0))
+   | None -> None)
+
+type sres =
+| SOk of state
+| SErr of state
+| SPanic
+
+(** val slash : state -> bytes -> z -> z -> z -> sres **)
+
+let slash s a infraction_h power factor =
+  if Z.ltb factor Z0
+  then SErr s
+  else if Z.ltb s.height infraction_h
+       then SErr s
+       else (match get_val s a with
+             | Some v ->
+               if N.eqb v.v_status N0
+               then SErr s
+               else (match tokens_from_power power with
+                     | Some amount ->
+                       (match dec_mul (dec_from_int amount) factor with
+                        | Some d ->
+                          (match dec_truncate_int d with
+                           | Some slash_amt ->
+                             let burn = Z.max (Z.min slash_amt v.v_tokens) Z0
+                             in
+                             let s1 = del_staked s a v in
+                             let v1 = with_tokens v (Z.sub v.v_tokens burn) in
+                             let s2 = set_staked (put_val s1 a v1) a v1 in
+                             (match burn_staked s2 burn with
+                              | Some s3 ->
+                                if Z.ltb v1.v_tokens s3.pp.p_min_stake
+                                then (match force_unstake s3 a v1 with
+                                      | Some s4 -> SOk s4
+                                      | None -> SErr s3)
+                                else SOk s3
+                              | None -> SErr s2)
+                           | None -> SPanic)
+                        | None -> SPanic)
+                     | None -> SPanic)
+             | None -> SErr s)
+
+(** val jail : state -> bytes -> state option **)
+
+let jail s a =
+  match get_val s a with
+  | Some v ->
+    if v.v_jailed
+    then None
+    else let v1 = with_jailed v true in
+         Some (del_staked (put_val s a v1) a v1)
+  | None -> None
+
+(** val unjail : state -> bytes -> state option **)
+
+let unjail s a =
+  match get_val s a with
+  | Some v ->
+    if v.v_jailed
+    then let v1 = with_jailed v false in
+         Some (set_staked (put_val s a v1) a v1)
+    else None
+  | None -> None
+
+(** val min_signed_per_window : pparams -> z **)
+
+let min_signed_per_window p0 =
+  chop_round (Z.mul p0.p_min_signed p0.p_window)
+
+(** val handle_signature : state -> bytes -> z -> bool -> state option **)
+
+let handle_signature s a power signed =
+  match aget s.pkrel a with
+  | Some _ ->
+    (match aget s.sinfo a with
+     | Some si ->
+       let w = s.pp.p_window in
+       if Z.leb w Z0
+       then None
+       else let index = Z.rem si.si_offset w in
+            let previous =
+              match aget s.missed (missed_key a index) with
+              | Some b -> b
+              | None -> false
+            in
+            let missd = negb signed in
+            if (&&) (negb previous) missd
+            then let mi = aset s.missed (missed_key a index) true in
+                 let ctr = Z.add si.si_missed (Zpos XH) in
+                 let si1 = { si_start = si.si_start; si_offset =
+                   (Z.add si.si_offset (Zpos XH)); si_jailed_until =
+                   si.si_jailed_until; si_tomb = si.si_tomb; si_missed = ctr }
+                 in
+                 let s1 = set_sign s s.sinfo mi in
+                 let min_height = Z.add si.si_start w in
+                 let max_missed = Z.sub w (min_signed_per_window s.pp) in
+                 if (&&) (Z.ltb min_height s.height) (Z.ltb max_missed ctr)
+                 then (match get_val s1 a with
+                       | Some v ->
+                         if v.v_jailed
+                         then Some
+                                (set_sign s1 (aset s1.sinfo a si1) s1.missed)
+                         else let s2 =
+                                match slash s1 a
+                                        (Z.sub s.height (Zpos (XO XH))) power
+                                        s.pp.p_slash_dt with
+                                | SOk x -> Some x
+                                | SErr x -> Some x
+                                | SPanic -> None
+                              in
+                              (match s2 with
+                               | Some s3 ->
+                                 (match jail s3 a with
+                                  | Some s4 ->
+                                    let si2 = { si_start = si.si_start;
+                                      si_offset = Z0; si_jailed_until =
+                                      (Z.add s.btime s.pp.p_downtime_jail);
+                                      si_tomb = si.si_tomb; si_missed = Z0 }
+                                    in
+                                    let mi2 =
+                                      filter (fun p0 ->
+                                        negb
+                                          ((&&) (has_prefix a (fst p0))
+                                            (Nat.eqb (length (fst p0))
+                                              (add (length a) (S (S (S (S (S
+                                                (S (S (S O))))))))))))
+                                        s4.missed
+                                    in
+                                    Some
+                                    (set_sign s4 (aset s4.sinfo a si2) mi2)
+                                  | None -> None)
+                               | None -> None)
+                       | None ->
+                         Some (set_sign s1 (aset s1.sinfo a si1) s1.missed))
+                 else Some (set_sign s1 (aset s1.sinfo a si1) s1.missed)
+            else if (&&) previous (negb missd)
+                 then let mi = aset s.missed (missed_key a index) false in
+                      let ctr = Z.sub si.si_missed (Zpos XH) in
+                      let si1 = { si_start = si.si_start; si_offset =
+                        (Z.add si.si_offset (Zpos XH)); si_jailed_until =
+                        si.si_jailed_until; si_tomb = si.si_tomb; si_missed =
+                        ctr }
+                      in
+                      let s1 = set_sign s s.sinfo mi in
+                      let min_height = Z.add si.si_start w in
+                      let max_missed = Z.sub w (min_signed_per_window s.pp) in
+                      if (&&) (Z.ltb min_height s.height)
+                           (Z.ltb max_missed ctr)
+                      then (match get_val s1 a with
+                            | Some v ->
+                              if v.v_jailed
+                              then Some
+                                     (set_sign s1 (aset s1.sinfo a si1)
+                                       s1.missed)
+                              else let s2 =
+                                     match slash s1 a
+                                             (Z.sub s.height (Zpos (XO XH)))
+                                             power s.pp.p_slash_dt with
+                                     | SOk x -> Some x
+                                     | SErr x -> Some x
+                                     | SPanic -> None
+                                   in
+                                   (match s2 with
+                                    | Some s3 ->
+                                      (match jail s3 a with
+                                       | Some s4 ->
+                                         let si2 = { si_start = si.si_start;
+                                           si_offset = Z0; si_jailed_until =
+                                           (Z.add s.btime
+                                             s.pp.p_downtime_jail); si_tomb =
+                                           si.si_tomb; si_missed = Z0 }
+                                         in
+                                         let mi2 =
+                                           filter (fun p0 ->
+                                             negb
+                                               ((&&) (has_prefix a (fst p0))
+                                                 (Nat.eqb (length (fst p0))
+                                                   (add (length a) (S (S (S
+                                                     (S (S (S (S (S O))))))))))))
+                                             s4.missed
+                                         in
+                                         Some
+                                         (set_sign s4 (aset s4.sinfo a si2)
+                                           mi2)
+                                       | None -> None)
+                                    | None -> None)
+                            | None ->
+                              Some
+                                (set_sign s1 (aset s1.sinfo a si1) s1.missed))
+                      else Some (set_sign s1 (aset s1.sinfo a si1) s1.missed)
+                 else let mi = s.missed in
+                      let ctr = si.si_missed in
+                      let si1 = { si_start = si.si_start; si_offset =
+                        (Z.add si.si_offset (Zpos XH)); si_jailed_until =
+                        si.si_jailed_until; si_tomb = si.si_tomb; si_missed =
+                        ctr }
+                      in
+                      let s1 = set_sign s s.sinfo mi in
+                      let min_height = Z.add si.si_start w in
+                      let max_missed = Z.sub w (min_signed_per_window s.pp) in
+                      if (&&) (Z.ltb min_height s.height)
+                           (Z.ltb max_missed ctr)
+                      then (match get_val s1 a with
+                            | Some v ->
+                              if v.v_jailed
+                              then Some
+                                     (set_sign s1 (aset s1.sinfo a si1)
+                                       s1.missed)
+                              else let s2 =
+                                     match slash s1 a
+                                             (Z.sub s.height (Zpos (XO XH)))
+                                             power s.pp.p_slash_dt with
+                                     | SOk x -> Some x
+                                     | SErr x -> Some x
+                                     | SPanic -> None
+                                   in
+                                   (match s2 with
+                                    | Some s3 ->
+                                      (match jail s3 a with
+                                       | Some s4 ->
+                                         let si2 = { si_start = si.si_start;
+                                           si_offset = Z0; si_jailed_until =
+                                           (Z.add s.btime
+                                             s.pp.p_downtime_jail); si_tomb =
+                                           si.si_tomb; si_missed = Z0 }
+                                         in
+                                         let mi2 =
+                                           filter (fun p0 ->
+                                             negb
+                                               ((&&) (has_prefix a (fst p0))
+                                                 (Nat.eqb (length (fst p0))
+                                                   (add (length a) (S (S (S
+                                                     (S (S (S (S (S O))))))))))))
+                                             s4.missed
+                                         in
+                                         Some
+                                         (set_sign s4 (aset s4.sinfo a si2)
+                                           mi2)
+                                       | None -> None)
+                                    | None -> None)
+                            | None ->
+                              Some
+                                (set_sign s1 (aset s1.sinfo a si1) s1.missed))
+                      else Some (set_sign s1 (aset s1.sinfo a si1) s1.missed)
+     | None -> None)
+  | None -> None
+
+(** val double_sign_jail_end : z **)
+
+let double_sign_jail_end =
+  Z.mul (Zpos (XI (XI (XI (XI (XI (XI (XI (XO (XI (XO (XO (XO (XO (XO (XI (XO
+    (XO (XO (XI (XO (XI (XI (XI (XI (XI (XI (XI (XI (XI (XI (XI (XI (XO (XI
+    (XO (XI (XI XH)))))))))))))))))))))))))))))))))))))) (Zpos (XO (XO (XO
+    (XO (XO (XO (XO (XO (XO (XI (XO (XI (XO (XO (XI (XI (XO (XI (XO (XI (XI
+    (XO (XO (XI (XI (XI (XO (XI (XI XH))))))))))))))))))))))))))))))
+
+(** val handle_double_sign : state -> bytes -> z -> z -> z -> state option **)
+
+let handle_double_sign s a inf_h ev_time0 power =
+  match aget s.pkrel a with
+  | Some _ ->
+    if Z.ltb s.pp.p_max_evidence_age (Z.sub s.btime ev_time0)
+    then None
+    else (match get_val s a with
+          | Some v ->
+            if N.eqb v.v_status N0
+            then None
+            else (match aget s.sinfo a with
+                  | Some si ->
+                    if si.si_tomb
+                    then None
+                    else let s1o =
+                           match slash s a (Z.sub inf_h (Zpos XH)) power
+                                   s.pp.p_slash_ds with
+                           | SOk x -> Some x
+                           | SErr x -> Some x
+                           | SPanic -> None
+                         in
+                         (match s1o with
+                          | Some s1 ->
+                            let s2o =
+                              if v.v_jailed then Some s1 else jail s1 a
+                            in
+                            (match s2o with
+                             | Some s2 ->
+                               (match get_val s2 a with
+                                | Some v2 ->
+                                  (match force_unstake s2 a v2 with
+                                   | Some s3 ->
+                                     let si1 = { si_start = si.si_start;
+                                       si_offset = si.si_offset;
+                                       si_jailed_until =
+                                       double_sign_jail_end; si_tomb = true;
+                                       si_missed = si.si_missed }
+                                     in
+                                     Some
+                                     (set_sign s3 (aset s3.sinfo a si1)
+                                       s3.missed)
+                                   | None -> None)
+                                | None -> None)
+                             | None -> None)
+                          | None -> None)
+                  | None -> None)
+          | None -> None)
+  | None -> None
+
+(** val reward_from_fees : state -> bytes -> state option **)
+
+let reward_from_fees s prev =
+  let fees = bal s s.ma.m_fee in
+  (match bank_send s s.ma.m_fee s.ma.m_pos fees with
+   | Some s1 ->
+     (match get_val s1 prev with
+      | Some _ -> bank_send s1 s1.ma.m_pos prev fees
+      | None -> Some s1)
+   | None -> None)
+
+(** val mint_award : state -> bytes -> z -> state **)
+
+let mint_award s a amt =
+  match bank_mint s s.ma.m_pool amt with
+  | Some s1 ->
+    (match bank_send s1 s1.ma.m_pool a amt with
+     | Some s2 -> s2
+     | None -> s1)
+  | None -> s
+
+(** val mint_awards : state -> state **)
+
+let mint_awards s =
+  let s1 = fold_left (fun st p0 -> mint_award st (fst p0) (snd p0)) s.awards s
+  in
+  set_queues s1 [] s1.burns
+
+(** val burn_validators_loop : (bytes * z) list -> state -> state option **)
+
+let rec burn_validators_loop l s =
+  match l with
+  | [] -> Some s
+  | p0 :: r ->
+    let (a, sev) = p0 in
+    (match get_val s a with
+     | Some v ->
+       let power =
+         if N.eqb v.v_status (Npos (XO XH)) then power_of v.v_tokens else Z0
+       in
+       (match slash s a s.height power sev with
+        | SOk s1 ->
+          burn_validators_loop r (set_queues s1 s1.awards (adel s1.burns a))
+        | SErr s1 ->
+          burn_validators_loop r (set_queues s1 s1.awards (adel s1.burns a))
+        | SPanic -> None)
+     | None -> None)
+
+type vote = { vo_addr : bytes; vo_power : z; vo_signed : bool }
+
+type evid = { ev_addr : bytes; ev_height : z; ev_time : z; ev_power : z }
+
+(** val fold_opt :
+    (state -> 'a1 -> state option) -> 'a1 list -> state -> state option **)
+
+let rec fold_opt f l s =
+  match l with
+  | [] -> Some s
+  | x :: r -> (match f s x with
+               | Some s1 -> fold_opt f r s1
+               | None -> None)
+
+(** val begin_block :
+    state -> z -> z -> bytes -> vote list -> evid list -> state option **)
+
+let begin_block s0 h t prop votes evs =
+  let s = set_block s0 h t in
+  let s1o =
+    if Z.ltb (Zpos XH) h
+    then (match s.proposer with
+          | Some p0 -> reward_from_fees s p0
+          | None -> None)
+    else Some s
+  in
+  (match s1o with
+   | Some s1 ->
+     let s2 = mint_awards s1 in
+     (match burn_validators_loop s2.burns s2 with
+      | Some s3 ->
+        let s4 = set_misc s3 (Some prop) s3.pkrel in
+        (match fold_opt (fun st v ->
+                 handle_signature st v.vo_addr v.vo_power v.vo_signed) votes
+                 s4 with
+         | Some s5 ->
+           fold_opt (fun st e ->
+             handle_double_sign st e.ev_addr e.ev_height e.ev_time e.ev_power)
+             evs s5
+         | None -> None)
+      | None -> None)
+   | None -> None)
+
+type update = bytes * z
+
+(** val upd_loop :
+    (bytes * bytes) list -> nat -> state -> z amap -> z -> update list ->
+    (((state * z amap) * z) * update list) option **)
+
+let rec upd_loop idx n0 s prev total acc =
+  match n0 with
+  | O -> Some (((s, prev), total), acc)
+  | S n' ->
+    (match idx with
+     | [] -> Some (((s, prev), total), acc)
+     | p0 :: r ->
+       let (_, a) = p0 in
+       (match get_val s a with
+        | Some v ->
+          if v.v_jailed
+          then None
+          else if Z.eqb (power_of v.v_tokens) Z0
+               then None
+               else let cur =
+                      if N.eqb v.v_status (Npos (XO XH))
+                      then power_of v.v_tokens
+                      else Z0
+                    in
+                    (match aget prev a with
+                     | Some p1 ->
+                       if Z.eqb p1 cur
+                       then upd_loop r n' s (adel prev a) (Z.add total cur)
+                              acc
+                       else let s1 =
+                              set_prev s (aset s.prevpow a cur) s.prevtotal
+                            in
+                            let acc1 = (a, cur) :: acc in
+                            upd_loop r n' s1 (adel prev a) (Z.add total cur)
+                              acc1
+                     | None ->
+                       let s1 = set_prev s (aset s.prevpow a cur) s.prevtotal
+                       in
+                       let acc1 = (a, cur) :: acc in
+                       upd_loop r n' s1 (adel prev a) (Z.add total cur) acc1)
+        | None -> None))
+
+(** val update_tm_validators : state -> (state * update list) option **)
+
+let update_tm_validators s =
+  let idx = rev s.powidx in
+  (match upd_loop idx (Z.to_nat s.pp.p_max_validators) s s.prevpow Z0 [] with
+   | Some p0 ->
+     let (p1, acc) = p0 in
+     let (p2, total) = p1 in
+     let (s1, leftover) = p2 in
+     (match fold_opt (fun st p3 ->
+              match get_val st (fst p3) with
+              | Some _ ->
+                Some (set_prev st (adel st.prevpow (fst p3)) st.prevtotal)
+              | None -> None) leftover s1 with
+      | Some s2 ->
+        let ups = app (rev acc) (map (fun p3 -> ((fst p3), Z0)) leftover) in
+        Some
+        ((match ups with
+          | [] -> s2
+          | _ :: _ -> set_prev s2 s2.prevpow total), ups)
+      | None -> None)
+   | None -> None)
+
+(** val finish_unstaking : state -> bytes -> validator -> state option **)
+
+let finish_unstaking s a v =
+  let s1 = del_unstaking s a v in
+  if negb (is_int64 v.v_tokens)
+  then None
+  else (match bank_send s1 s1.ma.m_pool a v.v_tokens with
+        | Some s2 -> Some (set_vals s2 (adel s2.vals a))
+        | None -> None)
+
+(** val unstake_one : state -> bytes -> state option **)
+
+let unstake_one s a =
+  match get_val s a with
+  | Some v ->
+    if (||) (negb (N.eqb v.v_status (Npos XH)))
+         (Z.ltb v.v_tokens s.pp.p_min_stake)
+    then Some s
+    else finish_unstaking s a v
+  | None -> Some s
+
+(** val unstake_mature : state -> state option **)
+
+let unstake_mature s =
+  let mature = filter (fun p0 -> bleb (fst p0) (time_key s.btime)) s.unstq in
+  fold_opt (fun st p0 ->
+    match fold_opt unstake_one (snd p0) st with
+    | Some st1 -> Some (set_unstq st1 (adel st1.unstq (fst p0)))
+    | None -> None) mature s
+
+(** val end_block : state -> (state * update list) option **)
+
+let end_block s =
+  match update_tm_validators s with
+  | Some p0 ->
+    let (s1, ups) = p0 in
+    (match unstake_mature s1 with
+     | Some s2 -> Some (s2, ups)
+     | None -> None)
+  | None -> None
+
+type pval =
+| PVpos of n * z
+| PVauth of n * z
+| PVaddr of bytes
+| PVacl of (bytes * bytes) list
+| PVfees of z * (bytes * z) list
+| PVraw
+
+type msg =
+| MStake of bytes * bytes * z
+| MUnstake of bytes
+| MUnjail of bytes
+| MSend of bytes * bytes * z
+| MChangeParam of bytes * bytes * pval * bytes * bool
+| MDao of bytes * bytes * z * n
+| MUpgrade of bytes * z * bytes
+
+(** val msg_signer : msg -> bytes **)
+
+let msg_signer = function
+| MStake (_, a, _) -> a
+| MUnstake a -> a
+| MUnjail a -> a
+| MSend (f, _, _) -> f
+| MChangeParam (f, _, _, _, _) -> f
+| MDao (f, _, _, _) -> f
+| MUpgrade (f, _, _) -> f
+
+(** val msg_type : msg -> n **)
+
+let msg_type = function
+| MStake (_, _, _) -> N0
+| MUnstake _ -> Npos XH
+| MUnjail _ -> Npos (XO XH)
+| MSend (_, _, _) -> Npos (XI XH)
+| MChangeParam (_, _, _, _, _) -> Npos (XO (XO XH))
+| MDao (_, _, _, _) -> Npos (XI (XO XH))
+| MUpgrade (_, _, _) -> Npos (XO (XI XH))
+
+(** val msg_base_fee : z -> msg -> z **)
+
+let msg_base_fee gov_fee = function
+| MChangeParam (_, _, _, _, _) -> gov_fee
+| MDao (_, _, _, _) -> gov_fee
+| MUpgrade (_, _, _) -> gov_fee
+| _ -> Z0
+
+(** val msg_basic_ok : msg -> bool **)
+
+let msg_basic_ok = function
+| MStake (pk, _, amt) ->
+  (&&) (negb (match pk with
+              | [] -> true
+              | _ :: _ -> false)) (Z.ltb Z0 amt)
+| MUnstake a -> negb (match a with
+                      | [] -> true
+                      | _ :: _ -> false)
+| MUnjail a -> negb (match a with
+                     | [] -> true
+                     | _ :: _ -> false)
+| MSend (f, t, amt) ->
+  (&&)
+    ((&&) (negb (match f with
+                 | [] -> true
+                 | _ :: _ -> false))
+      (negb (match t with
+             | [] -> true
+             | _ :: _ -> false))) (Z.ltb Z0 amt)
+| MChangeParam (_, k, _, _, _) ->
+  negb (match k with
+        | [] -> true
+        | _ :: _ -> false)
+| MDao (_, t, amt, act) ->
+  (&&)
+    ((&&) ((&&) (is_int64 amt) (negb (Z.eqb amt Z0)))
+      ((||) (N.eqb act (Npos XH)) (N.eqb act (Npos (XO XH)))))
+    (negb
+      ((&&) (N.eqb act (Npos XH)) (match t with
+                                   | [] -> true
+                                   | _ :: _ -> false)))
+| MUpgrade (_, h, _) -> negb (Z.eqb h Z0)
+
+type hres =
+| HOk of state
+| HErr of state
+
+(** val owner_of : (bytes * bytes) list -> bytes -> bytes **)
+
+let owner_of l k =
+  match find (fun p0 -> beqb (fst p0) k) l with
+  | Some p0 -> snd p0
+  | None -> []
+
+(** val apply_param : state -> bytes -> pval -> bytes -> state **)
+
+let apply_param s key v raw =
+  let raw' = aset s.params_raw key raw in
+  (match v with
+   | PVpos (f, z0) ->
+     let p0 = s.pp in
+     let g = fun i old -> if N.eqb f i then z0 else old in
+     let p' = { p_unstaking_time = (g N0 p0.p_unstaking_time);
+       p_max_validators = (g (Npos XH) p0.p_max_validators); p_min_stake =
+       (g (Npos (XO XH)) p0.p_min_stake); p_max_evidence_age =
+       (g (Npos (XI XH)) p0.p_max_evidence_age); p_window =
+       (g (Npos (XO (XO XH))) p0.p_window); p_min_signed =
+       (g (Npos (XI (XO XH))) p0.p_min_signed); p_downtime_jail =
+       (g (Npos (XO (XI XH))) p0.p_downtime_jail); p_slash_ds =
+       (g (Npos (XI (XI XH))) p0.p_slash_ds); p_slash_dt =
+       (g (Npos (XO (XO (XO XH)))) p0.p_slash_dt) }
+     in
+     set_params s p' s.ap s.acl s.dao_owner raw'
+   | PVauth (f, z0) ->
+     let a = s.ap in
+     let a' =
+       if N.eqb f N0
+       then { a_max_memo = z0; a_sig_limit = a.a_sig_limit; a_fee_default =
+              a.a_fee_default; a_fee_multis = a.a_fee_multis }
+       else { a_max_memo = a.a_max_memo; a_sig_limit = z0; a_fee_default =
+              a.a_fee_default; a_fee_multis = a.a_fee_multis }
+     in
+     set_params s s.pp a' s.acl s.dao_owner raw'
+   | PVaddr a -> set_params s s.pp s.ap s.acl a raw'
+   | PVacl l -> set_params s s.pp s.ap l s.dao_owner raw'
+   | PVfees (d, l) ->
+     set_params s s.pp { a_max_memo = s.ap.a_max_memo; a_sig_limit =
+       s.ap.a_sig_limit; a_fee_default = d; a_fee_multis = l } s.acl
+       s.dao_owner raw'
+   | PVraw -> set_params s s.pp s.ap s.acl s.dao_owner raw')
+
+(** val handle : state -> msg -> hres **)
+
+let handle s = function
+| MStake (pk, a, amt) ->
+  let v0 =
+    match get_val s a with
+    | Some v -> v
+    | None ->
+      { v_pk = pk; v_jailed = false; v_status = N0; v_tokens = Z0;
+        v_unstime = Z0 }
+  in
+  if negb (N.eqb v0.v_status N0)
+  then HErr s
+  else if Z.ltb amt s.pp.p_min_stake
+       then HErr s
+       else if Z.ltb (bal s a) amt
+            then HErr s
+            else let s1 =
+                   match get_val s a with
+                   | Some _ -> s
+                   | None ->
+                     set_misc (put_val s a v0) s.proposer (aset s.pkrel a pk)
+                 in
+                 (match bank_send s1 a s1.ma.m_pool amt with
+                  | Some s2 ->
+                    let v1 =
+                      with_status (with_tokens v0 (Z.add v0.v_tokens amt))
+                        (Npos (XO XH))
+                    in
+                    let s3 = set_staked (put_val s2 a v1) a v1 in
+                    let s4 =
+                      match aget s3.sinfo a with
+                      | Some _ -> s3
+                      | None ->
+                        set_sign s3
+                          (aset s3.sinfo a { si_start = s3.height;
+                            si_offset = Z0; si_jailed_until = Z0; si_tomb =
+                            false; si_missed = Z0 }) s3.missed
+                    in
+                    HOk s4
+                  | None -> HErr s1)
+| MUnstake a ->
+  (match get_val s a with
+   | Some v ->
+     if negb (N.eqb v.v_status (Npos (XO XH)))
+     then HErr s
+     else if Z.ltb v.v_tokens s.pp.p_min_stake
+          then HErr s
+          else let s1 = del_staked s a v in
+               let t = Z.add s.btime s.pp.p_unstaking_time in
+               let v1 = with_unstime (with_status v (Npos XH)) t in
+               let s2 = put_val s1 a v1 in
+               let q =
+                 match aget s2.unstq (time_key t) with
+                 | Some l -> l
+                 | None -> []
+               in
+               HOk
+               (set_unstq s2 (aset s2.unstq (time_key t) (app q (a :: []))))
+   | None -> HErr s)
+| MUnjail a ->
+  (match get_val s a with
+   | Some v ->
+     if Z.ltb v.v_tokens s.pp.p_min_stake
+     then HErr s
+     else if negb v.v_jailed
+          then HErr s
+          else (match aget s.sinfo a with
+                | Some si ->
+                  if si.si_tomb
+                  then HErr s
+                  else if Z.ltb s.btime si.si_jailed_until
+                       then HErr s
+                       else (match unjail s a with
+                             | Some s1 -> HOk s1
+                             | None -> HErr s)
+                | None -> HErr s)
+   | None -> HErr s)
+| MSend (f, t, amt) ->
+  (match bank_send s f t amt with
+   | Some s1 -> HOk s1
+   | None -> HErr s)
+| MChangeParam (f, key, v, raw, wf) ->
+  if negb (beqb (owner_of s.acl key) f)
+  then HErr s
+  else if wf then HOk (apply_param s key v raw) else HOk s
+| MDao (f, t, amt, act) ->
+  if negb (beqb s.dao_owner f)
+  then HErr s
+  else if N.eqb act (Npos XH)
+       then (match bank_send s s.ma.m_dao t amt with
+             | Some s1 -> HOk s1
+             | None -> HErr s)
+       else if N.eqb act (Npos (XO XH))
+            then (match bank_burn s s.ma.m_dao amt with
+                  | Some s1 -> HOk s1
+                  | None -> HErr s)
+            else HErr s
+| MUpgrade (f, _, raw) ->
+  if negb
+       (beqb
+         (owner_of s.acl ((Npos (XI (XI (XI (XO (XO (XI XH))))))) :: ((Npos
+           (XI (XI (XI (XI (XO (XI XH))))))) :: ((Npos (XO (XI (XI (XO (XI
+           (XI XH))))))) :: ((Npos (XI (XI (XI (XI (XO XH)))))) :: ((Npos (XI
+           (XO (XI (XO (XI (XI XH))))))) :: ((Npos (XO (XO (XO (XO (XI (XI
+           XH))))))) :: ((Npos (XI (XI (XI (XO (XO (XI XH))))))) :: ((Npos
+           (XO (XI (XO (XO (XI (XI XH))))))) :: ((Npos (XI (XO (XO (XO (XO
+           (XI XH))))))) :: ((Npos (XO (XO (XI (XO (XO (XI
+           XH))))))) :: ((Npos (XI (XO (XI (XO (XO (XI
+           XH))))))) :: [])))))))))))) f)
+  then HErr s
+  else HOk
+         (apply_param s ((Npos (XI (XI (XI (XO (XO (XI XH))))))) :: ((Npos
+           (XI (XI (XI (XI (XO (XI XH))))))) :: ((Npos (XO (XI (XI (XO (XI
+           (XI XH))))))) :: ((Npos (XI (XI (XI (XI (XO XH)))))) :: ((Npos (XI
+           (XO (XI (XO (XI (XI XH))))))) :: ((Npos (XO (XO (XO (XO (XI (XI
+           XH))))))) :: ((Npos (XI (XI (XI (XO (XO (XI XH))))))) :: ((Npos
+           (XO (XI (XO (XO (XI (XI XH))))))) :: ((Npos (XI (XO (XO (XO (XO
+           (XI XH))))))) :: ((Npos (XO (XO (XI (XO (XO (XI
+           XH))))))) :: ((Npos (XI (XO (XI (XO (XO (XI
+           XH))))))) :: []))))))))))) PVraw raw)
+
+type tx = { t_msg : msg; t_fee : z; t_memo_len : z;
+            t_attached : bytes option; t_multi_count : z;
+            t_signed_by : bytes; t_mutated : bool; t_sig_empty : bool;
+            t_in_index : bool; t_gov_fee : z }
+
+(** val required_fee : state -> z -> msg -> z **)
+
+let required_fee s gov_fee m =
+  let base = msg_base_fee gov_fee m in
+  let ty = msg_type m in
+  (match find (fun p0 -> beqb (fst p0) (ty :: [])) s.ap.a_fee_multis with
+   | Some p0 -> Z.mul base (snd p0)
+   | None -> Z.mul base s.ap.a_fee_default)
+
+type dres =
+| DOk of state
+| DRejected of state
+| DHandlerErr of state
+
+(** val ante : state -> tx -> state option **)
+
+let ante s t =
+  if Z.ltb s.ap.a_max_memo t.t_memo_len
+  then None
+  else (match t.t_attached with
+        | Some ka ->
+          if negb (beqb ka (msg_signer t.t_msg))
+          then None
+          else if t.t_in_index
+               then None
+               else if Z.ltb t.t_fee (required_fee s t.t_gov_fee t.t_msg)
+                    then None
+                    else if (&&) (Z.ltb Z0 t.t_multi_count)
+                              (Z.ltb s.ap.a_sig_limit t.t_multi_count)
+                         then None
+                         else if (||) (negb (beqb t.t_signed_by ka))
+                                   t.t_mutated
+                              then None
+                              else (match aget s.accts (msg_signer t.t_msg) with
+                                    | Some b ->
+                                      if Z.ltb b t.t_fee
+                                      then None
+                                      else bank_send s (msg_signer t.t_msg)
+                                             s.ma.m_fee t.t_fee
+                                    | None -> None)
+        | None ->
+          (match aget s.haspk (msg_signer t.t_msg) with
+           | Some _ ->
+             let ka = msg_signer t.t_msg in
+             if negb (beqb ka (msg_signer t.t_msg))
+             then None
+             else if t.t_in_index
+                  then None
+                  else if Z.ltb t.t_fee (required_fee s t.t_gov_fee t.t_msg)
+                       then None
+                       else if (&&) (Z.ltb Z0 t.t_multi_count)
+                                 (Z.ltb s.ap.a_sig_limit t.t_multi_count)
+                            then None
+                            else if (||) (negb (beqb t.t_signed_by ka))
+                                      t.t_mutated
+                                 then None
+                                 else (match aget s.accts (msg_signer t.t_msg) with
+                                       | Some b ->
+                                         if Z.ltb b t.t_fee
+                                         then None
+                                         else bank_send s
+                                                (msg_signer t.t_msg)
+                                                s.ma.m_fee t.t_fee
+                                       | None -> None)
+           | None -> None))
+
+(** val deliver_tx : state -> tx -> dres **)
+
+let deliver_tx s t =
+  if (||) ((||) (negb (msg_basic_ok t.t_msg)) (Z.ltb t.t_fee Z0))
+       t.t_sig_empty
+  then DRejected s
+  else (match ante s t with
+        | Some s1 ->
+          (match handle s1 t.t_msg with
+           | HOk s2 -> DOk s2
+           | HErr s2 -> DHandlerErr s2)
+        | None -> DRejected s)
+
+(** val k_award : state -> bytes -> z -> state **)
+
+let k_award s a amt =
+  let cur = match aget s.awards a with
+            | Some x -> x
+            | None -> Z0 in
+  set_queues s (aset s.awards a (Z.add cur amt)) s.burns
+
+(** val k_burn : state -> bytes -> z -> state **)
+
+let k_burn s a sev =
+  let cur = match aget s.burns a with
+            | Some x -> x
+            | None -> Z0 in
+  set_queues s s.awards (aset s.burns a (Z.add cur sev))
+
+(** val genesis_validator : state -> ((bytes * bytes) * z) -> state **)
+
+let genesis_validator s = function
+| (p0, tokens) ->
+  let (a, pk) = p0 in
+  let v = { v_pk = pk; v_jailed = false; v_status = (Npos (XO XH));
+    v_tokens = tokens; v_unstime = Z0 }
+  in
+  let s1 = set_staked (put_val s a v) a v in
+  let s2 =
+    set_sign s1
+      (aset s1.sinfo a { si_start = Z0; si_offset = Z0; si_jailed_until = Z0;
+        si_tomb = false; si_missed = Z0 }) s1.missed
+  in
+  set_misc s2 s2.proposer (aset s2.pkrel a pk)
+
+(** val init_chain :
+    state -> ((bytes * bytes) * z) list -> z -> (state * update list) option **)
+
+let init_chain s0 gvals dao_tokens =
+  let s1 = fold_left genesis_validator gvals s0 in
+  (match update_tm_validators s1 with
+   | Some p0 ->
+     let (s2, ups) = p0 in
+     (match bank_mint s2 s2.ma.m_dao dao_tokens with
+      | Some s3 -> Some (s3, ups)
+      | None -> Some (s2, ups))
+   | None -> None)
